@@ -23,6 +23,8 @@ static const char *const OTHER[] = {
 	"two threads arm dispatch_after (+1 ms, +2 ms) concurrently",
 	"one-shot timer source (interval FOREVER) +1 ms, racing dispatch_after +1 ms on the monotonic clock",
 	"timer with leeway 1 ms: start +1 ms, interval 2 ms, 3 firings",
+	"armed lone timer (+60 s, beyond the horizon) re-set from the main thread to +2 ms: must follow the new settings",
+	"armed timer (+60 s) re-set to +2 ms while another timer (+4 ms) is pending",
 };
 #define N_OTHER ((int)(sizeof(OTHER) / sizeof(OTHER[0])))
 enum { EV_ARM = EV_USER, EV_FIRE, EV_TIMER_FIRE, EV_SETTIMER, EV_RESUME };
@@ -120,6 +122,14 @@ static void run(int v)
 	case 7: { int th = vx_thread(t1_fn, NULL); arm_after(1, CK_UPTIME, 1 * MS); vx_join(th); wait_int(&g_fired, 2); break; }
 	case 8: mk_timer(CK_UPTIME, 1 * MS, DISPATCH_TIME_FOREVER, 0, 1); arm_after(1, CK_MONO, 1 * MS); wait_int(&g_fired, 1); wait_int(&g_tfires, 1); break;
 	case 9: mk_timer(CK_UPTIME, 1 * MS, 2 * MS, 1 * MS, 1); wait_int(&g_tfires, 3); break;
+	case 10: case 11:
+		mk_timer(CK_UPTIME, 60000 * (int64_t)MS, DISPATCH_TIME_FOREVER, 0, 1);
+		if (v - N_AFTER == 11) arm_after(1, CK_UPTIME, 4 * MS);
+		vx_sleep_ns(1 * MS);          // let the manager arm the kernel timer for +60 s
+		set_timer(CK_UPTIME, 2 * (int64_t)MS, DISPATCH_TIME_FOREVER, 0);
+		wait_int(&g_tfires, 1);
+		if (v - N_AFTER == 11) wait_int(&g_fired, 1);
+		break;
 	}
 	vx_focus_end();
 	// nothing may fire again after cancellation / one-shot completion: let 5 virtual ms pass
@@ -131,8 +141,8 @@ static int check(int v, const vx_log *l, char *msg, size_t len)
 {
 	uint64_t arm_vt[16]; int64_t arm_d[16]; int nfire[16], armed[16];
 	memset(arm_vt, 0, sizeof arm_vt); memset(arm_d, 0, sizeof arm_d); memset(nfire, 0, sizeof nfire); memset(armed, 0, sizeof armed);
-	static const uint64_t INTERVAL[] = { 1 * MS, 1 * MS, 0, 1 * MS, 0, 0, 0, 0, 0, 2 * MS };
-	static const int WANT[] = { 4, 4, 0, 2, 2, 1, 1, 0, 1, 3 };
+	static const uint64_t INTERVAL[] = { 1 * MS, 1 * MS, 0, 1 * MS, 0, 0, 0, 0, 0, 2 * MS, 0, 0 };
+	static const int WANT[] = { 4, 4, 0, 2, 2, 1, 1, 0, 1, 3, 1, 1 };
 	int k = v - N_AFTER;
 	uint64_t interval = k >= 0 ? INTERVAL[k] : 0;
 	uint64_t start = 0, first_start = 0, resume_vt = 0; int nset = 0, timer_fires = 0;
@@ -163,7 +173,7 @@ static int check(int v, const vx_log *l, char *msg, size_t len)
 	for (int id = 1; id < 16; id++) if (armed[id] && nfire[id] != 1) FAILF(msg, len, "dispatch_after block %d ran %d times", id, nfire[id]);
 	if (k >= 0) {
 		// periodic timers may coalesce several intervals into one invocation: only one-shot counts are exact
-		if ((k == 4 || k == 5 || k == 6 || k == 8) && timer_fires != WANT[k]) FAILF(msg, len, "one-shot timer handler ran %d times (expected %d)", timer_fires, WANT[k]);
+		if ((k == 4 || k == 5 || k == 6 || k == 8 || k == 10 || k == 11) && timer_fires != WANT[k]) FAILF(msg, len, "one-shot timer handler ran %d times (expected %d)", timer_fires, WANT[k]);
 		if (timer_fires > WANT[k]) FAILF(msg, len, "timer handler ran %d times although it was cancelled at its %dth invocation", timer_fires, WANT[k]);
 	}
 	return 0;
